@@ -163,7 +163,7 @@ class PostgreSQLQueryBuilder(QueryBuilder):
         has_joins = bool(self._joins)
         has_multiple_from_clauses = 1 < len(self._from)
         has_subquery_from_clause = 0 < len(self._from) and isinstance(self._from[0], QueryBuilder)
-        has_reference_to_foreign_table = self._foreign_table
+        has_reference_to_foreign_table = self._references_foreign_table()
         has_update_from = self._update_table and self._from
 
         ctx = ctx or PostgreSQLQuery.SQL_CONTEXT
